@@ -393,74 +393,107 @@ Definition v_cpupid (sx : static) (st : state) (c : nat) : value :=
   | None => None
   end.
 
-(* a request to emit: (file, row, type, flags, value) *)
-Definition req := (bool * nat * Z * Z * value)%type.
+(* Every registered (file,row,type) of the two PRV files is a slot. *)
+Inductive slot :=
+| STh (t : nat) (which : nat)     (* thread.prv system channel: 0 CPU, 1 TID, 2 state *)
+| STr (t : nat) (k : nat)         (* thread.prv, tracked model channel k *)
+| SCpu (c : nat) (which : nat)    (* cpu.prv system channel: 0 TID, 1 PID, 2 nrunning *)
+| SCr (c : nat) (k : nat).        (* cpu.prv, tracked model channel k *)
 
-Definition changed (a b : value) : bool := negb (value_eqb a b).
+Definition key := (bool * nat * Z)%type.
 
-(* system channels: emitted exactly when their value changed in this event *)
-Definition sys_thread_reqs (sx : static) (old new : state) (t : nat) : list req :=
-  match nth_opt (threads old) t, nth_opt (threads new) t, nth_opt (s_threads sx) t with
-  | Some a, Some b, Some ti =>
-    (if changed (v_cpu a) (v_cpu b) then [(false, t, PRV_THREAD_CPU, PRV_NEXT, v_cpu b)] else []) ++
-    (if changed (v_tid ti a) (v_tid ti b) then [(false, t, PRV_THREAD_TID, 0, v_tid ti b)] else []) ++
-    (if changed (v_state a) (v_state b) then [(false, t, PRV_THREAD_STATE, PRV_SKIPDUP, v_state b)] else [])
-  | _, _, _ => []
+Definition null_spec : chanspec :=
+  {| cs_model := 0; cs_index := 0; cs_stack := false; cs_dup := false; cs_thtrack := 0; cs_cputrack := 0;
+     cs_type := 0; cs_flags := 0; cs_init := None; cs_cpudef := None |}.
+Definition spec_of (sx : static) (k : nat) : chanspec := nth k (s_chans sx) null_spec.
+
+Definition key_of (sx : static) (s : slot) : key :=
+  match s with
+  | STh t w => (false, t, match w with O => PRV_THREAD_CPU | S O => PRV_THREAD_TID | _ => PRV_THREAD_STATE end)
+  | STr t k => (false, t, cs_type (spec_of sx k))
+  | SCpu c w => (true, c, match w with O => PRV_CPU_TID | S O => PRV_CPU_PID | _ => PRV_CPU_NRUN end)
+  | SCr c k => (true, c, cs_type (spec_of sx k))
   end.
 
-Definition sys_cpu_reqs (sx : static) (old new : state) (c : nat) : list req :=
-  (if changed (v_cputid sx old c) (v_cputid sx new c) then [(true, c, PRV_CPU_TID, 0, v_cputid sx new c)] else []) ++
-  (if changed (v_cpupid sx old c) (v_cpupid sx new c) then [(true, c, PRV_CPU_PID, 0, v_cpupid sx new c)] else []) ++
-  (if changed (v_nrun old c) (v_nrun new c) then [(true, c, PRV_CPU_NRUN, PRV_ZERO, v_nrun new c)] else []).
+Definition flags_of (sx : static) (s : slot) : Z :=
+  match s with
+  | STh _ w => match w with O => PRV_NEXT | S O => 0 | _ => PRV_SKIPDUP end
+  | SCpu _ w => match w with O => 0 | S O => 0 | _ => PRV_ZERO end
+  | STr _ k | SCr _ k => cs_flags (spec_of sx k)
+  end.
 
-(* ------------------------------------------------------------------ *)
-(* tracking views of the model channels: the emission rule             *)
-
+Definition empty_raw : raw := {| r_stk := []; r_val := None |}.
 Definition raw_of (st : state) (t : nat) (k : nat) : raw :=
   match nth_opt (threads st) t with
-  | Some th => nth k (t_raw th) {| r_stk := []; r_val := None |}
-  | None => {| r_stk := []; r_val := None |}
+  | Some th => nth k (t_raw th) empty_raw
+  | None => empty_raw
   end.
 
-(* value shown on the thread row for channel k *)
-Definition thread_view (sp : chanspec) (st : state) (t : nat) (k : nat) : value :=
-  if mode_ok (cs_thtrack sp) (thread_state_of st t) then raw_read sp (raw_of st t k) else None.
+Definition dummy_thread : thread := {| t_state := Unknown; t_cpu := None; t_ooc := false; t_raw := [] |}.
+Definition dummy_info : thread_info := {| ti_tid := 0; ti_pid := 0; ti_loom := 0 |}.
 
-(* value shown on the CPU row for channel k *)
-Definition cpu_view (sp : chanspec) (st : state) (c : nat) (k : nat) : value :=
-  match th_running st c with
-  | Some t => raw_read sp (raw_of st t k)
-  | None => cs_cpudef sp
+(* what each slot displays: the value of the channel behind it *)
+Definition view (sx : static) (st : state) (s : slot) : value :=
+  match s with
+  | STh t w =>
+    let th := nth t (threads st) dummy_thread in
+    match w with O => v_cpu th | S O => v_tid (nth t (s_threads sx) dummy_info) th | _ => v_state th end
+  | STr t k =>
+    let sp := spec_of sx k in
+    if mode_ok (cs_thtrack sp) (thread_state_of st t) then raw_read sp (raw_of st t k) else None
+  | SCpu c w =>
+    match w with O => v_cputid sx st c | S O => v_cpupid sx st c | _ => v_nrun st c end
+  | SCr c k =>
+    let sp := spec_of sx k in
+    match th_running st c with
+    | Some t => raw_read sp (raw_of st t k)
+    | None => cs_cpudef sp
+    end
   end.
 
-(* dirty: the raw channel (thread t, channel k) written in this event, if any *)
-Definition track_thread_reqs (sx : static) (old new : state) (dirty : option (nat * nat)) (t : nat) : list req :=
-  let state_changed := negb (tst_eqb (thread_state_of old t) (thread_state_of new t)) in
-  flat_map (fun '(k, sp) =>
-    let raw_dirty := match dirty with Some (t', k') => Nat.eqb t t' && Nat.eqb k k' | None => false end in
-    if cs_thtrack sp =? TRACK_ANY then
-      if raw_dirty then [(false, t, cs_type sp, cs_flags sp, raw_read sp (raw_of new t k))] else []
-    else if state_changed || (raw_dirty && mode_ok (cs_thtrack sp) (thread_state_of new t)) then
-      [(false, t, cs_type sp, cs_flags sp, thread_view sp new t k)]
-    else [])
-    (combine (seq 0 (length (s_chans sx))) (s_chans sx)).
+Definition changed (a b : value) : bool := negb (value_eqb a b).
 
 Definition opt_nat_eqb (a b : option nat) : bool :=
   match a, b with Some x, Some y => Nat.eqb x y | None, None => true | _, _ => false end.
 
-Definition track_cpu_reqs (sx : static) (old new : state) (dirty : option (nat * nat)) (c : nat) : list req :=
-  let sel_changed := negb (opt_nat_eqb (th_running old c) (th_running new c)) in
-  flat_map (fun '(k, sp) =>
-    let in_dirty := match dirty, th_running new c with
-                    | Some (t', k'), Some t => Nat.eqb t t' && Nat.eqb k k'
-                    | _, _ => false end in
-    if sel_changed || in_dirty then [(true, c, cs_type sp, cs_flags sp, cpu_view sp new c k)] else [])
-    (combine (seq 0 (length (s_chans sx))) (s_chans sx)).
+Definition is_dirty (dirty : option (nat * nat)) (t k : nat) : bool :=
+  match dirty with Some (t', k') => Nat.eqb t t' && Nat.eqb k k' | None => false end.
 
-Fixpoint emit_all (last : list ((bool * nat * Z) * value)) (rs : list req) : result (list ((bool * nat * Z) * value) * list line) :=
+(* The emission rule: is the channel behind the slot written (hence offered to the PRV) in the
+   event that takes old to new and writes the raw channel `dirty`?
+   - system channels refuse or ignore equal values: written iff their value changes;
+   - a thread tracking mux writes its output when its select (the thread state) changes or when its
+     selected input (the raw channel, selected iff the mode allows the state) is written;
+     mode ANY has no mux: the raw channel itself is registered;
+   - a CPU tracking mux writes when its select (the unique running thread) changes or when the raw
+     channel of that thread is written. *)
+Definition requested (sx : static) (old new : state) (dirty : option (nat * nat)) (s : slot) : bool :=
+  match s with
+  | STh _ _ | SCpu _ _ => changed (view sx old s) (view sx new s)
+  | STr t k =>
+    let sp := spec_of sx k in
+    if cs_thtrack sp =? TRACK_ANY then is_dirty dirty t k
+    else negb (tst_eqb (thread_state_of old t) (thread_state_of new t))
+         || (is_dirty dirty t k && mode_ok (cs_thtrack sp) (thread_state_of new t))
+  | SCr c k =>
+    negb (opt_nat_eqb (th_running old c) (th_running new c))
+    || match th_running new c with Some t => is_dirty dirty t k | None => false end
+  end.
+
+Definition slots (sx : static) : list slot :=
+  flat_map (fun t => [STh t 0; STh t 1; STh t 2] ++ map (STr t) (seq 0 (length (s_chans sx)))) (seq 0 (length (s_threads sx))) ++
+  flat_map (fun c => [SCpu c 0; SCpu c 1; SCpu c 2] ++ map (SCr c) (seq 0 (length (s_chans sx)))) (seq 0 (length (s_cpus sx))).
+
+(* a request to emit: (key, flags, value) *)
+Definition req := (key * Z * value)%type.
+
+Definition all_reqs (sx : static) (old new : state) (dirty : option (nat * nat)) : list req :=
+  flat_map (fun s => if requested sx old new dirty s then [(key_of sx s, flags_of sx s, view sx new s)] else []) (slots sx).
+
+Fixpoint emit_all (last : list (key * value)) (rs : list req) : result (list (key * value) * list line) :=
   match rs with
   | [] => Ok (last, [])
-  | (cpu, row, type, flags, v) :: r =>
+  | ((cpu, row, type), flags, v) :: r =>
     match emit last cpu row type flags v with
     | Err e => Err e
     | Ok (last1, l1) =>
@@ -470,10 +503,6 @@ Fixpoint emit_all (last : list ((bool * nat * Z) * value)) (rs : list req) : res
       end
     end
   end.
-
-Definition all_reqs (sx : static) (old new : state) (dirty : option (nat * nat)) : list req :=
-  flat_map (fun t => sys_thread_reqs sx old new t ++ track_thread_reqs sx old new dirty t) (seq 0 (length (threads new))) ++
-  flat_map (fun c => sys_cpu_reqs sx old new c ++ track_cpu_reqs sx old new dirty c) (seq 0 (length (cpu_threads new))).
 
 (* ------------------------------------------------------------------ *)
 (* events                                                              *)
@@ -497,37 +526,36 @@ Definition chan_step (sx : static) (st : state) (who : nat) (k : nat) (a : actio
   | _, _ => Err E_UNKNOWN
   end.
 
+(* the handler of one event: new semantic state and the raw channel it wrote, if any *)
+Definition core_step (sx : static) (st : state) (who : nat) (ev : event) : result (state * option (nat * nat)) :=
+  match ev with
+  | EvBad why => Err why
+  | EvNop =>
+    match nth_opt (threads st) who with
+    | Some th => if t_ooc th then Err E_OOC else Ok (st, None)
+    | None => Err E_UNKNOWN
+    end
+  | EvOvni e => match oh_step sx st who e with Ok s => Ok (s, None) | Err e => Err e end
+  | EvChan k a v need =>
+    match nth_opt (threads st) who with
+    | None => Err E_UNKNOWN
+    | Some th =>
+      if (need =? 1) && negb (is_running (t_state th)) then Err E_THSTATE else
+      if (need =? 2) && negb (is_active (t_state th)) then Err E_THSTATE else
+      if (need =? 3) && t_ooc th then Err E_OOC else      (* ovni flush: only the out-of-CPU guard *)
+      if (need =? 4) && (negb (is_active (t_state th)) || t_ooc th) then Err E_THSTATE else  (* nOS-V: active and in CPU *)
+      chan_step sx st who k a v
+    end
+  | EvOoc k out v =>
+    match nth_opt (threads st) who with
+    | None => Err E_UNKNOWN
+    | Some th => chan_step sx (set_thread st who (with_ooc th out)) who k (if out then PUSH else POP) (Some v)
+    end
+  end.
+
+(* handler, then propagation: every written channel is offered to the PRV *)
 Definition step (sx : static) (st : state) (who : nat) (ev : event) : result (state * list line) :=
-  let r : result (state * option (nat * nat)) :=
-    match ev with
-    | EvBad why => Err why
-    | EvNop =>
-      match nth_opt (threads st) who with
-      | Some th => if t_ooc th then Err E_OOC else Ok (st, None)
-      | None => Err E_UNKNOWN
-      end
-    | EvOvni e => match oh_step sx st who e with Ok s => Ok (s, None) | Err e => Err e end
-    | EvChan k a v need =>
-      match nth_opt (threads st) who with
-      | None => Err E_UNKNOWN
-      | Some th =>
-        if (need =? 1) && negb (is_running (t_state th)) then Err E_THSTATE else
-        if (need =? 2) && negb (is_active (t_state th)) then Err E_THSTATE else
-        if (need =? 3) && t_ooc th then Err E_OOC else      (* ovni flush: only the out-of-CPU guard *)
-        if (need =? 4) && (negb (is_active (t_state th)) || t_ooc th) then Err E_THSTATE else  (* nOS-V: active and in CPU *)
-        chan_step sx st who k a v
-      end
-    | EvOoc k out v =>
-      match nth_opt (threads st) who with
-      | None => Err E_UNKNOWN
-      | Some th =>
-        match chan_step sx (set_thread st who (with_ooc th out)) who k (if out then PUSH else POP) (Some v) with
-        | Err e => Err e
-        | Ok r => Ok r
-        end
-      end
-    end in
-  match r with
+  match core_step sx st who ev with
   | Err e => Err e
   | Ok (st1, dirty) =>
     match emit_all (prv_last st1) (all_reqs sx st st1 dirty) with
